@@ -29,8 +29,8 @@ CLAIMS = {
             ref="3/C05", note=SCEN + TRUST),
  "C06": dict(text="RawNode ready/persist/advance cycles: term never decreases; a non-leader releases messages only as persisted_messages; a granted vote is recorded in the hard state of the same Ready and that Ready is must_sync even when only the vote changed; what a leader sends immediately carries an already durable term; stale persistence notices never move persisted onto unwritten entries. Restart: RawNode::new on a durable image reproduces exactly the durable term / vote / commit, leaves the log untouched and resumes apply after the applied index. Found and fixed a genuine defect (single-voter leader with learners).",
             ref="3/C06", note="Crash points are not enumerated as such: 'never behind anything it told another node' follows from (per Ready) promises are released only with / after the hard state and entries that cover them + (restart) the restarted node equals its durable image. " + SCEN + TRUST),
- "C07": dict(text="Every clause of the Ready contract on real RawNode cycles: entries = unstable suffix handed once, hs present iff changed, must_sync rule, committed entries = exactly the committed, persisted, not-yet-handed range (contiguous, in order, none unpersisted), LightReady continues without gap/duplicate, has_ready() agrees with ready(), snapshot Ready, async persistence (plain, snapshot, with an overwriting append in between - also exactly at the noticed index), one-entry-per-hand-off pagination (max_committed_size_per_ready = 0) drained over several rounds, apply-before-persist with limit 1.",
-            ref="3/C07", note="Pagination only with page sizes NO_LIMIT and 0 (general byte limits are decided at RaftLog::slice level in C14); max_apply_unpersisted_log_limit only 0 and 1. " + SCEN + TRUST),
+ "C07": dict(text="Every clause of the Ready contract on real RawNode cycles: entries = unstable suffix handed once, hs present iff changed, must_sync rule, committed entries = exactly the committed, persisted, not-yet-handed range (contiguous, in order, none unpersisted), LightReady continues without gap/duplicate, has_ready() agrees with ready(), snapshot Ready, async persistence (plain, snapshot, with an overwriting append in between - also exactly at the noticed index), one-entry-per-hand-off pagination (max_committed_size_per_ready = 0) drained over several rounds, apply-before-persist with limits 1, 2 and u64::MAX. Found and fixed a genuine defect (overflow of persisted + limit).",
+            ref="3/C07", note="Pagination only with page sizes NO_LIMIT and 0 (general byte limits are decided at RaftLog::slice level in C14); max_apply_unpersisted_log_limit only 0, 1, 2 and u64::MAX. " + SCEN + TRUST),
  "C08": dict(text="Leader read-index scenarios (3 / 5 voters, joint, learner, forwarded, duplicate ack, wrong context, singleton, not yet committed in term, loss of leadership) and the follower side: a read state appears only after a joint quorum of distinct voters acknowledged the request's context, carries the commit index recorded at request time, and goes only to the requester; pending reads die with the term; an acknowledgement releases only the reads queued up to its context; no single-voter fast path while an outgoing half exists. " + DEC,
             ref="3/C08", note=SCEN + TRUST),
  "C09": dict(text="Proposal filtering (pending change, second change in a batch, enter while joint, leave while not joint, batch [normal, change]), campaign gating on unapplied membership entries (hup / timeout / MsgTimeoutNow; one or several unapplied entries; scan in one page or one entry per page), promotable = voter of own config after apply_conf_change and snapshot install, non-voters never campaign; configuration after apply equals reference semantics (C12). " + DEC,
